@@ -107,6 +107,15 @@ class Analysis:
                                # sinks or inspections, never inlined
                                no_inline_prefixes=(R.module + "::bytecode::",) + tuple(
                                    sorted(set(p.rsplit("::", 1)[0] + "::" for p in R.pattern_sinks))))
+        enums = set(c[0] for (_t, _s, c, _r) in ZERO_OK if c and c[0] not in ("result", "absent"))
+
+        def protected(k, v):
+            if k[0] == "enumval" and v[0] == "in":
+                return v[1].rsplit("::", 1)[0].rsplit("::", 1)[-1] in enums
+            if k[0] == "opt" and k[1][0] == "ad":
+                return k[1][1].startswith("result of")
+            return False
+        self.interp.protected = protected
         self.paths = {}         # variant tag -> [State]
         self.handlers = {}      # variant tag -> handler fn
 
